@@ -2,6 +2,7 @@ package main
 
 import (
 	"go/token"
+	"strings"
 
 	"golang.org/x/tools/go/ssa"
 )
@@ -50,6 +51,19 @@ func flowsToOpt(v ssa.Value, whole bool, sink func(call ssa.CallInstruction, arg
 				if isBuiltin(c, "append") {
 					if val := x.Value(); val != nil {
 						work = append(work, val)
+					}
+				}
+				// written into a local strings.Builder / bytes.Buffer: continue from what is read
+				// back out of it
+				if cn := calleeName(c); len(args) == 2 && args[1] == cur && (strings.HasPrefix(cn, "(*strings.Builder).Write") || strings.HasPrefix(cn, "(*bytes.Buffer).Write")) {
+					if al, ok := args[0].(*ssa.Alloc); ok && al.Referrers() != nil {
+						for _, r2 := range *al.Referrers() {
+							if c2, ok := r2.(*ssa.Call); ok {
+								if n2 := calleeName(&c2.Call); strings.HasSuffix(n2, ").String") || strings.HasSuffix(n2, ").Bytes") {
+									work = append(work, c2)
+								}
+							}
+						}
 					}
 				}
 				// library calls whose result contains their first argument whole
